@@ -94,7 +94,8 @@ def case_strategy(draw):
     long_doc = draw(st.booleans())
     # half of the cases add List[..] / Union[..] / nested annotations (required parameters of a non-simple type)
     profile = draw(st.sampled_from(["common", "executable"]))
-    irs = [draw(gen_ir.interface(profile, min_params=1, max_params=4, returns=False, min_literal=2, doc=gen_ir.boundary_descr() if long_doc else gen_ir.descr)) for _ in range(3)]
+    with_returns = draw(st.integers(0, 3)) == 0
+    irs = [draw(gen_ir.interface(profile, min_params=1, max_params=4, returns=with_returns, min_literal=2, doc=gen_ir.boundary_descr() if long_doc else gen_ir.descr)) for _ in range(3)]
     same = draw(st.integers(0, 3)) == 0
     if same:
         irs = [irs[0]] * 3
@@ -155,6 +156,8 @@ def oracle(case):
     if case.get("long_doc"):
         r.label("descriptions-across-wrap-column")
     r.label("profile:" + case.get("profile", "common"))
+    if any(x.get("returns") for x in case["irs"]):
+        r.label("has-return-entry")
     if case.get("related"):
         r.label(case["related"])
     if case.get("undocumented"):
@@ -263,7 +266,13 @@ def _conforms(got, truth_ir, kind, truth_kind):
             continue  # P14: the '=None' of a function parameter widens the type on the way into a class / argparse
         if t1 != t2 or d1 != d2:
             return False
-    return docs(got) == docs(truth_ir)
+    if docs(got) != docs(truth_ir):
+        return False
+    # the return entry (type; description up to whitespace) travels with the interface
+    tr, gr = ((truth_ir.get("returns") or {}).get("return_type") or {}), ((got.get("returns") or {}).get("return_type") or {})
+    if tr.get("typ") and kind == "class" and (gr.get("typ") != tr.get("typ") or normdoc(gr.get("doc")) != normdoc(tr.get("doc"))):
+        return False
+    return True
 
 
 def layer_main(ctx):
